@@ -1061,3 +1061,90 @@ Proof.
     rewrite E in E'. inversion E'; subst. split; [reflexivity|exact Htx].
 Qed.
 
+(* ========================================================================================== *)
+(* Part 5: the complete statement, examples on the whole pipeline, refutation witnesses         *)
+(* ========================================================================================== *)
+Require Import SFetch Pipe SBuf Drivers.
+From Coq Require Import String.
+Local Open Scope N_scope.
+Local Open Scope list_scope.
+
+(* the block scalars among the events of a run, and whether the run ended without an error *)
+Definition block_scalars (r : list (event * span) * pend) : list (style * list N) * bool :=
+  (flat_map (fun ev => match fst ev with
+                       | EScalar v Literal _ _ => [(Literal, v)]
+                       | EScalar v Folded _ _ => [(Folded, v)]
+                       | _ => []
+                       end) (fst r),
+   match snd r with PDone => true | _ => false end).
+
+Definition case_style (b : bcase) : style := if bc_literal b then Literal else Folded.
+Definition expected (b : bcase) : list (style * list N) * bool := ([(case_style b, case_value b)], true).
+
+(* a case of the specification on which the model pipeline (string input and buffered inputs of capacity 8 and 16)
+   delivers exactly the specified scalar *)
+Definition agrees (b : bcase) : Prop :=
+  case_ok b = true /\
+  block_scalars (run_str (case_text b)) = expected b /\
+  block_scalars (run_buf 8 (case_text b)) = expected b /\
+  block_scalars (run_buf 16 (case_text b)) = expected b.
+
+Definition mkcase (literal : bool) (c : chomp) (explicit : option nat) (parent : option nat) (prefix hc : list N)
+           (raw : list rline) (eof : eof_shape) : bcase :=
+  {| bc_literal := literal; bc_chomp := c; bc_explicit := explicit; bc_digit_first := false; bc_parent := parent;
+     bc_prefix := prefix; bc_hc := hc; bc_raw := raw; bc_eof := eof; bc_brk := 0 |}.
+
+(* contexts: the text in front of the indicator and the indentation of the parent collection *)
+Inductive outer : list N -> nat -> Prop :=
+| outer_top p : outer (spaces p) p                                                   (* a collection at column p *)
+| outer_map pre p q : outer pre p -> (p < q)%nat -> outer (pre ++ L "k:/" ++ spaces q) q   (* value on the next line *)
+| outer_seq_line pre p q : outer pre p -> (p < q)%nat -> outer (pre ++ L "-/" ++ spaces q) q
+| outer_seq_inline pre p : outer pre p -> outer (pre ++ L "- ") (p + 2).
+Inductive ctx : option nat -> list N -> Prop :=
+| ctx_bare : ctx None []
+| ctx_doc : ctx None (L "--- ")
+| ctx_map pre p : outer pre p -> ctx (Some p) (pre ++ L "k: ")
+| ctx_seq pre p : outer pre p -> ctx (Some p) (pre ++ L "- ").
+
+Definition first_block_scalar (toks : list token) : option (style * list N) :=
+  hd_error (flat_map (fun t => match snd t with
+                               | TScalar Literal v => [(Literal, v)]
+                               | TScalar Folded v => [(Folded, v)]
+                               | _ => []
+                               end) toks).
+Definition scan_buf (cap : nat) (s : list N) : list token * scan_end :=
+  let F := (2 * List.length s + 10)%nat in
+  scan_all (buf_ops cap) F (4 * F + 20) (init_sc {| b_buf := []; b_rest := s |}) [].
+
+(* The complete statement of C05 on the model: every case of the specification (all line lists, both styles, every
+   chomping, explicit / auto-detected indentation, header comment, every end shape, every line-break style) in every
+   context, on the string input and on every buffered input (the wide-indent path included), scans to the
+   specified scalar. *)
+Definition C05_full : Prop :=
+  forall b, case_ok b = true -> ctx (bc_parent b) (bc_prefix b) ->
+    first_block_scalar (fst (scan_str (case_text b))) = Some (case_style b, case_value b) /\
+    forall cap, (8 <= cap)%nat -> first_block_scalar (fst (scan_buf cap (case_text b))) = Some (case_style b, case_value b).
+
+(* It does not hold of the faithful model: three classes of inputs (see known_findings_c05.jsonl) *)
+Definition witness_clip_eof : bcase := mkcase true CClip None None [] [] [R 1 "a"; R 1 ""] EofNone.
+Definition witness_keep_eof : bcase := mkcase true CKeep None (Some O) (L "k: ") [] [R 2 "a"; R 1 ""] EofNone.
+Definition witness_doc_start : bcase := mkcase true CClip None None [] [] [R 0 "a"] (EofRest (L "---/b/")).
+
+Lemma witness_clip_eof_fails :
+  case_ok witness_clip_eof = true /\ case_text witness_clip_eof = L "|/ a/ " /\ case_value witness_clip_eof = L "a/" /\
+  first_block_scalar (fst (scan_str (case_text witness_clip_eof))) = Some (Literal, L "a//").
+Proof. vm_compute. repeat split. Qed.
+Lemma witness_keep_eof_fails :
+  case_ok witness_keep_eof = true /\ case_text witness_keep_eof = L "k: |+/  a/ " /\ case_value witness_keep_eof = L "a//" /\
+  first_block_scalar (fst (scan_str (case_text witness_keep_eof))) = Some (Literal, L "a/").
+Proof. vm_compute. repeat split. Qed.
+Lemma witness_doc_start_fails :
+  case_ok witness_doc_start = true /\ case_text witness_doc_start = L "|/a/---/b/" /\ case_value witness_doc_start = L "a/" /\
+  first_block_scalar (fst (scan_str (case_text witness_doc_start))) = Some (Literal, L "a/---/b/").
+Proof. vm_compute. repeat split. Qed.
+
+Lemma C05_full_is_refuted : ~ C05_full.
+Proof.
+  intros H. destruct (H witness_clip_eof eq_refl ctx_bare) as [H1 _].
+  destruct witness_clip_eof_fails as [_ [_ [_ H2]]]. rewrite H2 in H1. clear H2 H. vm_compute in H1. discriminate H1.
+Qed.
